@@ -18,6 +18,7 @@ open Coap.SQ
 
 inductive Reason where
   | retries | rst | undeliv | bad
+  | icmp      -- COAP_NACK_ICMP_ISSUE: only produced by the extended model (Model/MsgLayerX.lean)
   deriving Repr, DecidableEq
 
 /-- What the endpoint does (DESIGN.md §4.0 `Output`). `known` of a NACK = the handler got the sent PDU (`sent != NULL`). -/
